@@ -226,7 +226,11 @@ func main() {
 		rec(nil)
 	}
 	family([]int{iA, -1, iZ}, 3, false)
-	family([]int{iA, iB, -1, iZ}, 2, true)
+	if r.Thorough() {
+		family([]int{iA, iB, -1, iZ}, 3, true) // 2 696 operations
+	} else {
+		family([]int{iA, iB, -1, iZ}, 2, true)
+	}
 	addOp(plain([]int{iM, iM + 1}, []int{iA}), true)
 	addOp(plain([]int{iA, iM, iM + 2}, []int{iA, iZ}), true)
 	addOp(plain([]int{iA, iM + 1}, []int{iA, iM + 2}, []int{iZ, iA}), true)
